@@ -143,7 +143,8 @@ class C12(Prop):
         "face (C12_constant_zero); under the stated K-orthogonality hypothesis (K s n parallel "
         "to x_f-x_c, same direction) transmissibilities are positive, the diagonal of Div*flux "
         "is non-negative (positive with a non-Neumann face) and off-diagonals are non-positive "
-        "(C12_Mmatrix), and with one constant K the face flux of a linear pressure is "
+        "(C12_Mmatrix); the faces of a periodic pair get one transmissibility and one flux value "
+        "(C12_periodic_pair); with one constant K the face flux of a linear pressure is "
         "-(K n).a on interior, Dirichlet and Neumann faces (C12_linear_exact_*), boundary "
         "pressure reconstruction included (C12_bound_pressure). The same polymorphic model is "
         "executed over exact rationals on the real geometry arrays (Fraction(float)) of "
@@ -160,20 +161,31 @@ class C12(Prop):
         "(comparison tolerance 1e-9 relative inside Coq). ORACLE-ONLY: the claim that the TPFA "
         "flux and bound_flux matrices coincide with MPFA on Cartesian/tensor grids with diagonal "
         "permeability is checked numerically (pp.Mpfa vs pp.Tpfa) and is not a theorem. Linear "
-        "exactness is stated as -(K n).a, equal to -n.K a for symmetric K. Not modelled: "
-        "periodic face maps, Aavatsmark transmissibilities, vector_source matrices; boundary "
+        "exactness is stated as -(K n).a, equal to -n.K a for symmetric K. Periodic face maps are "
+        "modelled by the code's entry extension (a pair = one face with two cells, per-entry "
+        "geometry): C12_symmetric then speaks about Div over the same (identified) entry list; "
+        "for the stored cell_faces^T of a periodic grid symmetry is NOT a general theorem — it "
+        "follows pairwise from C12_periodic_pair and is checked exactly in Q by the tie on "
+        "every periodic instance, and by the oracle on the implementation; MPFA comparison and "
+        "linear pressures are not applied to periodic cases. Not modelled: "
+        "Aavatsmark transmissibilities, vector_source matrices; boundary "
         "faces are assumed to have exactly one incidence entry (bndr_sgn ordering).")
     technique = ("Coq proof (double-sum exchange for symmetry, per-face algebra by field/nra over R) "
                  "+ vm_compute execution correspondence over exact rationals + K-orthogonality "
                  "checker evaluated per instance")
     rule = ("grids: CartGrid 1-3-D, TensorGrid with dyadic spacings and shifted origins 1-3-D, "
-            "StructuredTriangleGrid, StructuredTetrahedralGrid; K per cell: isotropic, diagonal "
+            "StructuredTriangleGrid, StructuredTetrahedralGrid; a quarter of the Cartesian/tensor "
+            "grids carry a periodic face map on opposite sides (one or more axes, orientation of an "
+            "axis optionally flipped, pairs optionally shuffled), half of the 1-D/2-D ones are "
+            "embedded along other axes by an exact axis permutation with K anisotropic only in the "
+            "embedding axes; K per cell: isotropic, diagonal "
             "anisotropic, full SPD tensor (dyadic entries), or one constant tensor; bc: random "
             "Dirichlet/Neumann per boundary face (always at least the default Neumann); "
             "non-trivial = at least 2 cells")
     trusted = ["geometry arrays (face_normals, face_centers, cell_centers), k.values and the "
                "incidence triples of the real grid are passed to the model as exact rationals"]
-    assumptions = ["no periodic_face_map, Aavatsmark_transmissibilities off",
+    assumptions = ["Aavatsmark_transmissibilities off; every face of a periodic map has exactly one "
+                   "stored incidence entry",
                    "non-zero half transmissibilities (no division by zero in 1/t_face)"]
 
     # ------------------------------------------------------------------ generation
@@ -183,9 +195,9 @@ class C12(Prop):
             spec = grid_spec(rng, tier)
             if spec["kind"] in ("cart", "tensor"):
                 d0 = len(spec["n"]) if spec["kind"] == "cart" else len(spec["x"])
-                if rng.random() < 0.3:
+                if rng.random() < 0.25:
                     spec["pmap"] = periodic_pairs(rng, spec)
-                if d0 < 3 and rng.random() < 0.35:
+                if d0 < 3 and rng.random() < 0.5:
                     spec["axperm"] = rng.choice([[1, 0, 2], [2, 0, 1], [1, 2, 0], [2, 1, 0], [0, 2, 1]])
             g = make_grid(spec)
             nc, nf = g.num_cells, g.num_faces
@@ -193,11 +205,13 @@ class C12(Prop):
             const = r < 0.35
             pick = (lambda: [rng.choice(vals)] * nc) if const else (lambda: [rng.choice(vals) for _ in range(nc)])
             kmode = rng.choice(["iso", "diag", "diag", "full"]) if g.dim > 1 else rng.choice(["iso", "diag"])
+            if spec.get("axperm") and rng.random() < 0.7:
+                kmode = "diag"     # anisotropy that only shows in the embedding axes
             k = {"kxx": pick()}
             if kmode in ("diag", "full"):
                 # often equal in the first axes and different in the third: isotropic for
                 # SecondOrderTensor.is_isotropic(dim) but not in an embedding plane
-                k["kyy"] = list(k["kxx"]) if rng.random() < 0.4 else pick()
+                k["kyy"] = list(k["kxx"]) if rng.random() < (0.7 if spec.get("axperm") else 0.3) else pick()
                 k["kzz"] = pick()
             if kmode == "full":
                 # off-diagonals small enough for diagonal dominance (SPD)
